@@ -133,6 +133,12 @@ def bounded_faults(t, attach=None, force=None) -> Ctx:
     if t.choose(3, "pacing") == 2:
         w.pacing = "random"
     ctx.info["K"] = K
+    # a fifth of the runs: the handlers already completed a transfer and were idle for a while
+    if t.choose(5, "prelude") == 4:
+        saved_budget = w.link.budget
+        prelude(w, same_request=bool(t.choose(2, "prelude same request")), idle_ms=[0, 1500, 30000][t.choose(3, "prelude idle")],
+                mode=[None, ACK, UNACK][t.choose(3, "prelude mode")], closure=[None, True, False][t.choose(3, "prelude closure")])
+        w.link.budget = saved_budget
     longest = max(cfg.ack_s, cfg.nak_s)
     bound_ms = int((2 * cfg.ack_lim + cfg.nak_lim + 6) * longest * 1000) + max(w.link.delays_ms) + 1000
     ctx.info["bound_ms"] = bound_ms
@@ -140,10 +146,13 @@ def bounded_faults(t, attach=None, force=None) -> Ctx:
     w.max_t = 3_000_000
     _start(ctx, attach)
 
+    t_start = w.clock.t
+
     def until(w):
-        last = w.link.last_fault_t or 0
+        last = w.link.last_fault_t or t_start
         return w.clock.t > last + bound_ms
 
+    w.max_t += w.clock.t
     ctx.reason = w.run(until=until)
     fired = sum(w.link.fired.values())
     ctx.info["fired"] = fired
